@@ -35,6 +35,7 @@ type Obligation struct {
 	TimeoutMs int     // per-obligation solver budget override (0: tier default)
 	Expand func() []*Obligation // on failure: finer obligations that localise the failure
 	Batch  string     // obligations with the same batch key share one incremental solver run
+	SubLabels []string // optional names of the sub-goals (reported when one fails)
 	ReplaySrc string  // engine-provided in-package test that replays the obligation on the real code
 	localSlice bool   // (solver driver) build the query with the aggressive local slice
 	noLocal   bool
